@@ -70,21 +70,29 @@ theorem noEscBel_natBytes (n : Nat) : noEscBel (natBytes n) = true := by
     simp [UInt8.toNat_ofNat'] at this
     omega
 
+theorem noEscBel_lineBytes (line : Option Nat) : noEscBel (lineBytes line) = true := by
+  cases line with
+  | none => rfl
+  | some n => exact noEscBel_natBytes n
+
 theorem noEscBel_fileUrl (fmt p : Bytes) (host : Option Bytes) (line : Option Nat)
     (hf : noEscBel fmt = true) (hp : noEscBel p = true) (hh : ∀ h, host = some h → noEscBel h = true) :
     noEscBel (fileUrl fmt p host line) = true := by
   unfold fileUrl
-  have h1 := noEscBel_replaceAll fmt phPath p hf hp
-  cases host with
-  | none =>
-    cases line with
-    | some n => exact noEscBel_replaceAll _ _ _ h1 (noEscBel_natBytes n)
-    | none => exact noEscBel_replaceAll _ _ _ h1 (by decide)
-  | some h =>
-    have h2 := noEscBel_replaceAll _ phHost h h1 (hh h rfl)
-    cases line with
-    | some n => exact noEscBel_replaceAll _ _ _ h2 (noEscBel_natBytes n)
-    | none => exact noEscBel_replaceAll _ _ _ h2 (by decide)
+  split
+  · unfold fileUrlPathLast
+    cases host with
+    | none =>
+      exact noEscBel_replaceAll _ _ _ (noEscBel_replaceAll _ _ _ hf (noEscBel_lineBytes line)) hp
+    | some h =>
+      exact noEscBel_replaceAll _ _ _
+        (noEscBel_replaceAll _ _ _ (noEscBel_replaceAll _ _ _ hf (hh h rfl)) (noEscBel_lineBytes line)) hp
+  · unfold fileUrlPathFirst
+    have h1 := noEscBel_replaceAll fmt phPath p hf hp
+    cases host with
+    | none => exact noEscBel_replaceAll _ _ _ h1 (noEscBel_lineBytes line)
+    | some h =>
+      exact noEscBel_replaceAll _ _ _ (noEscBel_replaceAll _ phHost h h1 (hh h rfl)) (noEscBel_lineBytes line)
 
 /-! ### File links at the sites -/
 
@@ -148,7 +156,7 @@ theorem pendingDiffNameLine_eq (c : Cfg) (links : Bool) (label name : Bytes) :
 
 /-- src/handlers/diff_stat.rs `relativize_path_in_diff_stat_line` -/
 def diffStatPieces (c : Cfg) (pathInRepo relPath suffix : Bytes) (alignWidth : Nat) : List Piece :=
-  [.plain [0x20], filePiece c pathInRepo relPath none,
+  [.plain [0x20], filePiece c (diffStatLinked pathInRepo relPath) relPath none,
    .plain (List.replicate (alignWidth - relPath.length) 0x20), .plain suffix]
 
 theorem diffStatLine_eq (c : Cfg) (links : Bool) (pathInRepo relPath suffix : Bytes) (alignWidth : Nat) :
@@ -178,7 +186,8 @@ def lineNumberPieces (c : Cfg) (n : Option Nat) (plusFile : Option Bytes) (padde
 
 theorem formatLineNumber_eq (c : Cfg) (links : Bool) (n : Option Nat) (plusFile : Option Bytes)
     (padded : Nat → Bytes) (blank : Bytes)
-    (habs : ∀ file, plusFile = some file → absolutePath c.path file ≠ none) :
+    (habs : Generated.gutterNumberWithoutAbs = true ∨
+      ∀ file, plusFile = some file → absolutePath c.path file ≠ none) :
     formatLineNumber c links n plusFile padded blank =
       render links (lineNumberPieces c n plusFile padded blank) := by
   unfold formatLineNumber lineNumberPieces filePiece
@@ -188,16 +197,19 @@ theorem formatLineNumber_eq (c : Cfg) (links : Bool) (n : Option Nat) (plusFile 
     cases plusFile with
     | none => cases links <;> simp [render]
     | some file =>
-      have := habs file rfl
       cases hq : absolutePath c.path file with
-      | none => exact absurd hq this
+      | none =>
+        rcases habs with hg | habs
+        · cases links <;> simp [render, hg, hq]
+        · exact absurd hq (habs file rfl)
       | some p => cases links <;> simp [render, fileLink, hq]
 
 /-- The deviation: with links on and no absolute path (the working directory of the delta process
 cannot be determined), the *file name* is printed in place of the line number. -/
 theorem formatLineNumber_no_abs (c : Cfg) (k : Nat) (file : Bytes) (padded : Nat → Bytes) (blank : Bytes)
     (h : absolutePath c.path file = none) :
-    formatLineNumber c true (some k) (some file) padded blank = file ∧
+    formatLineNumber c true (some k) (some file) padded blank =
+      (if Generated.gutterNumberWithoutAbs then padded k else file) ∧
     formatLineNumber c false (some k) (some file) padded blank = padded k := by
   simp [formatLineNumber, h]
 
